@@ -4,6 +4,7 @@ import Just.Generated.Tables
 import Just.Model.Lexer
 import Just.Model.Render
 import Just.Model.Body
+import Just.Model.Syntax
 open Lean Just
 
 /-- first entry whose key occurs in `k` (the fake shell's matching rule) -/
@@ -248,6 +249,68 @@ def handleBody (j : Json) : Except String Json := do
       ("interp", match interp with | some i => toJson (i.command :: i.args) | none => Json.null),
       ("text", String.ofList text)]
 
+def tkFromJson (j : Json) : Except String Syntax.Tk := do
+  let k ← j.getObjValAs? String "k"
+  let s := (j.getObjValAs? String "s").toOption.getD ""
+  match k with
+  | "str" => pure (.str s) | "bt" => pure (.bt s) | "ident" => pure (.ident s)
+  | "plus" => pure .plus | "slash" => pure .slash | "andand" => pure .andand | "barbar" => pure .barbar
+  | "lparen" => pure .lparen | "rparen" => pure .rparen | "comma" => pure .comma
+  | "lbrace" => pure .lbrace | "rbrace" => pure .rbrace
+  | "eqeq" => pure (.op .eq) | "bangeq" => pure (.op .ne) | "eqtilde" => pure (.op .match) | "bangtilde" => pure (.op .nomatch)
+  | other => pure (.other other)
+
+def tkToJson : Syntax.Tk → Json
+  | .str s => Json.mkObj [("k", "str"), ("s", s)]
+  | .bt s => Json.mkObj [("k", "bt"), ("s", s)]
+  | .ident s => Json.mkObj [("k", "ident"), ("s", s)]
+  | .plus => Json.mkObj [("k", "plus")] | .slash => Json.mkObj [("k", "slash")]
+  | .andand => Json.mkObj [("k", "andand")] | .barbar => Json.mkObj [("k", "barbar")]
+  | .lparen => Json.mkObj [("k", "lparen")] | .rparen => Json.mkObj [("k", "rparen")]
+  | .comma => Json.mkObj [("k", "comma")] | .lbrace => Json.mkObj [("k", "lbrace")] | .rbrace => Json.mkObj [("k", "rbrace")]
+  | .op .eq => Json.mkObj [("k", "eqeq")] | .op .ne => Json.mkObj [("k", "bangeq")]
+  | .op .match => Json.mkObj [("k", "eqtilde")] | .op .nomatch => Json.mkObj [("k", "bangtilde")]
+  | .other k => Json.mkObj [("k", k)]
+
+def opStr : CondOp → String
+  | .eq => "==" | .ne => "!=" | .match => "=~" | .nomatch => "!~"
+
+/-- strip the delimiters of a plain one-line literal (the generator of the correspondence check only
+uses `'…'` and one-tick backticks) -/
+def inner (lexeme : String) : String := String.ofList ((lexeme.toList.drop 1).dropLast)
+
+mutual
+/-- the JSON the dump prints for an expression (groups are transparent there) -/
+partial def exprDump : Expr → Json
+  | .str s => Json.str (inner s)
+  | .var n => Json.arr #["variable", n]
+  | .backtick s => Json.arr #["evaluate", inner s]
+  | .call f args => Json.arr (#[Json.str "call", Json.str f] ++ (args.toList.map exprDump).toArray)
+  | .concat l r => Json.arr #["concatenate", exprDump l, exprDump r]
+  | .joinL l r => Json.arr #["join", exprDump l, exprDump r]
+  | .joinR r => Json.arr #["join", Json.null, exprDump r]
+  | .and l r => Json.arr #["and", exprDump l, exprDump r]
+  | .or l r => Json.arr #["or", exprDump l, exprDump r]
+  | .cond a o b t e => Json.arr #["if", Json.arr #[Json.str (opStr o), exprDump a, exprDump b], exprDump t, exprDump e]
+  | .assert a o b m => Json.arr #["assert", Json.arr #[Json.str (opStr o), exprDump a, exprDump b], exprDump m]
+  | .group e => exprDump e
+end
+
+/-- {"op":"syntax","tokens":[{"k":..,"s":..}]}: parse the tokens as an expression, print it back -/
+def handleSyntax (j : Json) : Except String Json := do
+  let toksJ ← (← j.getObjVal? "tokens").getArr?
+  let toks ← toksJ.toList.mapM tkFromJson
+  match Syntax.parseExpression (4 * toks.length + 16) toks with
+  | none => return Json.mkObj [("parse", Json.null)]
+  | some (e, rest) =>
+    let printed := Syntax.printE e
+    let again := Syntax.parseExpression (4 * printed.length + 16) printed
+    let same := match again with
+      | some (e2, []) => (repr e2).pretty == (repr e).pretty
+      | _ => false
+    return Json.mkObj [("ast", exprDump e), ("rest", toJson rest.length), ("printed", Json.arr (printed.map tkToJson).toArray),
+      ("reparse_same", same)]
+
 def handle (line : String) : Json :=
   match Json.parse line with
   | .error e => Json.mkObj [("fatal", s!"parse: {e}")]
@@ -270,6 +333,7 @@ def handle (line : String) : Json :=
       | "evaluate" => handleEvaluate j
       | "shsplit" => handleShSplit j
       | "lex" => handleLex j
+      | "syntax" => handleSyntax j
       | "body" => handleBody j
       | "context" => handleContext j
       | _ => throw s!"unknown op {op}"
